@@ -144,9 +144,39 @@ func runC06HTTP(c E1Case) (out core.Outcome) {
 	return
 }
 
+// genBacklog: a sustained backlog. One writer keeps the queue non-empty for many rounds of one and the same sender
+// activation: whenever the sender is inside a transport write, the writer queues the next packets. Whatever a sender
+// does differently on its 10th, 16th or 32nd consecutive round shows here. Ends with a Close (C06) or without (C01/C02).
+func genBacklog(t *rapid.T, withClose bool) E1Case {
+	var c E1Case
+	c.Kind = "qblock"
+	c.Queue = rapid.SampledFrom([]int{2, 2, 3}).Draw(t, "bqueue")
+	c.Buffered = rapid.Bool().Draw(t, "buffered")
+	rounds := rapid.SampledFrom([]int{18, 20, 34, 40}).Draw(t, "rounds")
+	task := E1Task{Role: "writer"}
+	for i := 0; i < 2*rounds+4; i++ {
+		task.Ops = append(task.Ops, E1Op{Op: rapid.SampledFrom([]string{"write1", "write1", "writev"}).Draw(t, "entry"), Sizes: []int{1 + i%7}})
+	}
+	c.Tasks = []E1Task{task}
+	c.Prefix = []E1Dir{{Task: 0, Label: "enqueue.after"}, {Task: 0, Label: "enqueue.after"}}
+	for i := 0; i < rounds; i++ {
+		c.Prefix = append(c.Prefix, E1Dir{Task: -1, Label: rapid.SampledFrom([]string{"t.writev", "send.afterWritev"}).Draw(t, "bwhere")},
+			E1Dir{Task: 0, Label: "enqueue.after"}, E1Dir{Task: 0, Label: "enqueue.after"})
+	}
+	if withClose {
+		c.Tasks = append(c.Tasks, E1Task{Role: "closer", After: []int{0}, Ops: []E1Op{{Op: "close", Err: rapid.SampledFrom(closeErrKinds).Draw(t, "cerr")}}})
+		c.Futile = drawFutile(t, []int{0, 1, 2})
+	}
+	c.Schedule = genSchedule(t, 200)
+	return c
+}
+
 func genC06(t *rapid.T) E1Case {
 	if rapid.IntRange(0, 5).Draw(t, "http") == 0 {
 		return genC06HTTP(t)
+	}
+	if rapid.IntRange(0, 29).Draw(t, "backlog") == 13 {
+		return genBacklog(t, true)
 	}
 	var c E1Case
 	genKind(t, &c, []string{"qblock", "qblock", "qnonblock"})
@@ -219,6 +249,14 @@ func runC06(c E1Case) (out core.Outcome) {
 		return
 	}
 	r.baseClasses()
+	if n := r.maxSenderRounds(); n >= 16 {
+		r.cls.Add("sender-activation-with>=16-rounds")
+	}
+	if ov := r.tr.WriteOverlap(); ov != "" {
+		out.Violation = core.Viol("C06/transport-write-calls-overlap", "%s: two senders are at work at once, so Close cannot know when the batch it waits for is over", ov)
+		r.sweep(true)
+		return
+	}
 	if msg := r.escapedPanic(); msg != "" {
 		out.Inconclusive = "panic escaped an API call: " + msg
 		r.sweep(true)
